@@ -14,7 +14,16 @@ package did
 //@ // the multicodec codes the parser accepts
 //@ pure func parseSet(c int) bool = c == Ed25519 || c == P256 || c == Secp256k1 || c == RSA
 //@
+//@ // parsedDID names the value Parse returns (Parse is a function of its argument)
+//@ ghost func parsedDID(s string) DID
+//@ ghost func pubKeyOf(d DID) crypto.PubKey
+//@
 //@ func Parse
+//@   assumes result1 == nil ==> result0 == parsedDID(str)
 //@   ensures [C16,C10] accepted: result1 == nil ==> hasPrefix(str, "did:key:") && parseSet(result0.code) && didDefined(result0)
 //@   ensures [C16] rejected: result1 != nil ==> result0 == Undef
 //@   assigns [C20] nothing
+//@
+//@ func (DID).PubKey
+//@   trusted
+//@   ensures result1 == nil ==> result0 != nil && result0 == pubKeyOf(d)
